@@ -65,7 +65,9 @@ static void build_bitmap(void)
 	BM.real_end = IN.real_end;
 	BM.private = &BP;
 	BM.bitmap_ops = &ext2fs_blkmap64_bitarray;
+#ifndef BA_ENV_OWN_GHOST	/* units whose ghost bit may lie outside the array (resize) set verif_k themselves */
 	verif_k = IN.k;
 	ASSUME(verif_k <= IN.real_end - IN.start);
 	verif_old_bit = BIT(BP.bitarray, verif_k);
+#endif
 }
